@@ -24,8 +24,13 @@ from fordsim import orchestrate as O  # noqa: E402
 
 PROP = "C20"
 OPTIONS = {"project": "W", "src_dir": "./src", "output_dir": "./doc", "preprocess": False, "parallel": 0,
-           "search": False, "graph": False}
+           "search": False, "graph": False, "include": "./inc"}
 PREFIX = "zz"
+# every world also has one valid file that INCLUDEs a file found through the `include` setting, so that a
+# rejected file can be seen to disturb how *another* file's include is resolved (seeded change C20-r7-1)
+INC_USER = "src/zzz_incuser.f90"
+INC_FILES = {"p/" + INC_USER: "module zzincuser\n  !! uses a shared include file\n  implicit none\n  include \"zzshared.inc\"\nend module zzincuser\n",
+             "p/inc/zzshared.inc": "  integer :: zz_from_include_dir  !! declared in the include directory\n"}
 STATED = {"bad_namelist", "semicolon_tail", "ends_in_predoc", "many_rejected", "surplus_end_append", "surplus_end_tail", "copy_end_at_eof", "copy_trunc_stmt", "copy_extra_end", "copy_trunc_byte", "trunc_stmt", "trunc_byte", "splice", "lost_block", "byteflip", "undecodable", "empty", "whitespace",
           "extra_end", "missing_end", "dup_contains", "misplaced_contains", "malformed", "binary", "long_line",
           "crlf_mix"}
@@ -119,6 +124,15 @@ def gen_case(seed, idx):
             fset["src/%scyc%d.inc" % (PREFIX, j)] = "  include \"%scyc%d.inc\"\n" % (PREFIX, j)
         sets.append({"files": fset, "kinds": {name: "read_%s@%s" % (how, {"aaa": "first", "zzzz": "last", "mmm": "between"}[pos])},
                      "only_named": [name]})
+    # a damaged file in a directory of its own that also holds an include file named like the one the valid
+    # INC_USER finds through the `include` setting: the rejected file must not change where that is found
+    for j in range(1):
+        dn = "src/%s_d%d" % (frng.choice(["aaa", "aaa", "mmm"]), j)
+        name = "%s/%sbrk%d.f90" % (dn, PREFIX, j)
+        dmg = frng.choice(["module %sbrk%d\n  implicit none\n  integer :: never_finished\ncontains\n  subroutine s()\n" % (PREFIX, j),
+                           "module %sbrk%d\nend module %sbrk%d\nend\n" % (PREFIX, j, PREFIX, j)])
+        sets.append({"files": {name: dmg, dn + "/zzshared.inc": "  integer :: zz_from_damaged_dir\n"},
+                     "kinds": {name: "trunc_stmt@first"}, "only_named": [name]})
     # many rejected files in one run, under a low limit on open files: each rejected file must be let go of
     if idx % 4 == 0:
         many = {}
@@ -157,12 +171,14 @@ def layout(case, seed):
         files = {"p/" + k: v for k, v in src.items()}
         files["p/proj.md"] = W.render_project_file(OPTIONS)
         files["home/.keep"] = ""
-        return files, sorted("p/" + k for k in src)
+        files.update(INC_FILES)
+        return files, sorted(["p/" + k for k in src] + ["p/" + INC_USER])
     src = W.render_sources(case["world"], seeds.stream(seed, PROP, case["idx"], "render"))
     files = {"p/" + k: v for k, v in src.items()}
     files["p/proj.md"] = W.render_project_file(OPTIONS)
     files["home/.keep"] = ""
-    return files, sorted("p/" + k for k in src)
+    files.update(INC_FILES)
+    return files, sorted(["p/" + k for k in src] + ["p/" + INC_USER])
 
 
 def size_of(content):
@@ -383,9 +399,11 @@ def candidates(case):
     for s_i, s in enumerate(case["sets"]):
         if len(s["files"]) > 1:
             for n in sorted(s["files"]):
+                if n in (s.get("only_named") or []):
+                    continue   # the damaged file itself; its companions (include files) carry no kind
                 c = copy.deepcopy(case)
                 del c["sets"][s_i]["files"][n]
-                del c["sets"][s_i]["kinds"][n]
+                c["sets"][s_i]["kinds"].pop(n, None)
                 yield "drop damaged file", c
     for desc, w in ([] if case.get("corpus") else W.shrink_candidates(case["world"])):
         if w["mods"] or w["progs"] or w["extprocs"]:
